@@ -42,3 +42,20 @@ func Since(t Time) Duration { return Now().Sub(t) }
 func Until(t Time) Duration { return t.Sub(Now()) }
 
 func Unix(sec, nsec int64) Time { return time.Unix(sec, nsec) }
+
+func Date(year int, month Month, day, hour, min, sec, nsec int, loc *Location) Time {
+	return time.Date(year, month, day, hour, min, sec, nsec, loc)
+}
+
+// After returns a channel that is already due: under the controlled clock a wait is a clock jump.
+func After(d Duration) <-chan Time {
+	Sleep(d)
+	c := make(chan Time, 1)
+	c <- Now()
+	return c
+}
+
+const (
+	RFC3339     = time.RFC3339
+	RFC3339Nano = time.RFC3339Nano
+)
